@@ -76,7 +76,13 @@ class Builder:
 
     def opt(self, name, mk):
         isnone = z3.Bool(f'{self.p}{name}?none')
-        return Choice(((isnone, None), (z3.Not(isnone), mk(name))))
+        k = len(self.wf)
+        v = mk(name)
+        inner = self.wf[k:]
+        del self.wf[k:]
+        if inner:
+            self.wf.append(z3.Or(isnone, z3.And(*inner)))
+        return Choice(((isnone, None), (z3.Not(isnone), v)))
 
     def enum(self, name, cls):
         idx = self.int(name, 0, len(tuple(cls)) - 1)
@@ -249,6 +255,8 @@ def decode(v, heap, model):
     if isinstance(v, SymObj):
         return {'$obj': f'{v.cls.__module__}.{v.cls.__qualname__}',
                 'fields': {k: decode(x, heap, model) for k, x in v.fields.items()}}
+    if isinstance(v, SymMapping):
+        return {'$dict': [[decode(k, heap, model), decode(x, heap, model)] for k, x in v.pairs]}
     if isinstance(v, FlagSet):
         return {'$flags': [decode(k, heap, model) for k, b in v.flags.items() if decode(b, heap, model)]}
     if isinstance(v, AbstractHandType):
